@@ -159,3 +159,8 @@ func Param(name string, def int) int {
 	}
 	return def
 }
+
+// SameFloat: a and b are the same double (NaN equals NaN, +0 differs from -0).
+func SameFloat(a, b float64) bool {
+	return (a != a && b != b) || math.Float64bits(a) == math.Float64bits(b)
+}
